@@ -314,6 +314,10 @@ func genArpaName(rng *rand.Rand) string {
 	s := strings.Join(append(ls, root), ".")
 	if rng.IntN(12) == 0 {
 		s = pick(rng, "foo.", "a.b.", "1.", "f.", ".", "xn--.", "srv100.", "net172.", "x1.", "host255.") + s
+	} else if rng.IntN(40) == 0 {
+		// very many short foreign labels in front (the whole name still within 253 octets or just past)
+		k := pick(rng, 20, 40, 60, 80, 100, 110, 120)
+		s = strings.Repeat(pick(rng, "a.", "x.", "9.", "f."), k) + s
 	} else if rng.IntN(30) == 0 {
 		// foreign labels that are long in UTF-8 and short in ACE, in front of a root in either case:
 		// the raw name is longer than any bound that holds for the validated (converted) form
